@@ -30,15 +30,22 @@ def filter_(gen, out, jobs=6, cap=25):
     os.makedirs(out, exist_ok=True)
     per = collections.Counter()
     todo = []
+    skip_files = set(os.environ.get('MSWEEP_SKIP_FILES', '').split(',')) - {''}
+    seen = set()
+    if os.environ.get('MSWEEP_SEEN'):
+        for l in open(os.environ['MSWEEP_SEEN']):
+            t = l.split(None, 3)
+            if len(t) == 4:
+                seen.add((t[2], t[3].strip()))
     for d in sorted(glob.glob(os.path.join(gen, 'm*'))):
         f, line, desc = open(os.path.join(d, 'meta.txt')).read().strip().split('\n')
-        if per[f] >= cap:
+        if per[f] >= cap or f in skip_files or (f + ':' + line, desc) in seen:
             continue
         per[f] += 1
         todo.append((d, f, line, desc))
     wts = []
     for j in range(jobs):
-        wt = '/tmp/msweep/wt%d' % j
+        wt = '/tmp/msweep2/wt%d' % j
         sh(['git', '-C', '/repo', 'worktree', 'remove', '--force', wt])
         sh(['git', '-C', '/repo', 'worktree', 'add', '-q', '--detach', wt, 'HEAD'])
         wts.append(wt)
